@@ -47,7 +47,7 @@ def main():
       res['checks'] = {}
       for c in checks:
         t = time.time()
-        v = sh('cd /verif && VERIF_REPO=%s ./vcheck %s --tier %s' % (wt, c, tier))
+        v = sh('cd %s && VERIF_REPO=%s ./vcheck %s --tier %s' % (os.environ.get('VERIF_EVAL_DIR', '/verif'), wt, c, tier))
         lines = v.stdout.splitlines()
         res['checks'][c] = {'exit': v.returncode, 'violations': sum(1 for l in lines if l.startswith('VIOLATION')),
                             'first': [l for l in lines if l.startswith('  case:') or l.startswith('  why')][:4],
